@@ -21,7 +21,7 @@ def run_target(P, t, time_budget=600):
     try:
         f = t["func"] if not isinstance(t["func"], str) else specutil.find_func(P, t["func"], t.get("self_ty"))
     except KeyError as e:
-        return dict(name=t["name"], prop=t["prop"], status="inconclusive", why=f"entry function not found: {e}", obligations=0, discharged=0, failures=[], paths=0)
+        return dict(name=t["name"], props=t["props"], status="inconclusive", why=f"entry function not found: {e}", obligations=0, discharged=0, failures=[], paths=0)
     def on_path(res):
         V.paths += 1
         t["check"](res, V)
@@ -30,7 +30,7 @@ def run_target(P, t, time_budget=600):
         stats, used = engine.explore(P, t["cfg"], f, lambda ex: t["make_args"](ex, f), on_path, time_budget=time_budget, max_paths=t.get("max_paths", 20000))
     except Exception as e:
         traceback.print_exc()
-        return dict(name=t["name"], prop=t["prop"], status="inconclusive", why=f"engine error: {type(e).__name__}: {e}", obligations=V.obligations, discharged=V.discharged, failures=V.failures, paths=V.paths)
+        return dict(name=t["name"], props=t["props"], status="inconclusive", why=f"engine error: {type(e).__name__}: {e}", obligations=V.obligations, discharged=V.discharged, failures=V.failures, paths=V.paths)
     status = "proved"
     why = ""
     if V.failures:
@@ -40,8 +40,8 @@ def run_target(P, t, time_budget=600):
         why = f"truncated={stats.get('truncated')} unsupported={stats['unsupported']} {stats['unsupported_msgs']} bound={stats['bound']} notes={V.inconclusive[:3]}"
     elif V.obligations == 0:
         status = "vacuous"
-    return dict(name=t["name"], prop=t["prop"], status=status, why=why, what=t.get("what", ""), entry=f.name, mir_lines=f.nlines,
-                obligations=V.obligations, discharged=V.discharged, failures=V.failures[:5], nfailures=len(V.failures), paths=V.paths, witnesses=V.witnesses,
+    return dict(name=t["name"], props=t["props"], status=status, why=why, what=t.get("what", ""), entry=f.name, mir_lines=f.nlines,
+                obligations=V.obligations, discharged=V.discharged, failures=V.failures[:12], nfailures=len(V.failures), paths=V.paths, witnesses=V.witnesses,
                 stats={k: v for k, v in stats.items() if k != "unsupported_msgs"}, inlined=sorted(used["inlined"]), modelled=sorted(used["modelled"]),
                 havocked=sorted(used["havocked"]), bounds=t.get("bounds", {}), solver_time=round(stats["solver_time"] + V.solver_time, 3),
                 solver_calls=stats["solver_calls"] + V.solver_calls, wall=round(time.time() - t0, 2))
@@ -49,19 +49,25 @@ def run_target(P, t, time_budget=600):
 
 def main():
     ap = argparse.ArgumentParser()
-    ap.add_argument("--mir", required=True)
+    ap.add_argument("--mir", default=None)
+    ap.add_argument("--list", action="store_true")
     ap.add_argument("--repo", default="/repo")
     ap.add_argument("--only", default=None)
     ap.add_argument("--prop", default=None)
     ap.add_argument("--json", default=None)
     ap.add_argument("-v", action="store_true")
     a = ap.parse_args()
+    if a.list:
+        for t in all_targets():
+            if not a.prop or a.prop in t["props"]:
+                print(t["name"])
+        return
     P = specutil.load_program(a.repo, a.mir)
     out = []
     for t in all_targets():
         if a.only and t["name"] not in a.only.split(","):
             continue
-        if a.prop and t["prop"] != a.prop:
+        if a.prop and a.prop not in t["props"]:
             continue
         r = run_target(P, t)
         out.append(r)
